@@ -410,6 +410,12 @@ def wl_sco20(ctx, rng, i):
     ctx.see("2.0 observables", t + (("+" + ext) if ext else ""))
 
 
+def setup(ctx):
+    # history: registrations the library refuses (taken names, in either 2.1 category) come before the content is judged
+    from ..gen import custom as gcustom
+    ctx.count("refused_registrations_before_the_workload", gcustom.refused_registrations())
+
+
 WORKLOADS = [
     Workload("sco20", wl_sco20, quick=lambda: len(SCO20) * 2, thorough=lambda: len(SCO20) * 600),
     Workload("profiles", wl_profiles, quick=lambda: len(TYPES) * 32, thorough=lambda: len(TYPES) * 6000),
